@@ -10,7 +10,7 @@ use std::time::Duration;
 
 pub static PROP: Prop = Prop {
     id: "C01",
-    rule: "cases: (b) token soup: 0-60 fragments from 14 character/token classes (operator characters and spellings, delimiters, digit runs with . e E + -, balanced and unbalanced quotes, ; , whitespace, names, keywords, 2/3/4-byte scalars, other first characters, odd whitespace), glued without separator 3/4 of the time, plus corrupted valid programs, plus the operator x edge-palette programs of C04 (binary, compound, prefix/postfix and min/max/sum/mul forms), all in the dev AND the release build (paired shards); one case in 48 draws 2-6 user operators (infix, prefix, postfix; symbolic and word spellings, some registered in several positions, `+` and `in` overridden; precedences 0, 1, 2, 20, 21, 110, 200, 10^9, 2^30, i32::MAX, -1, -2^30, i32::MIN; both associativities), registers them in a fresh child process and runs eight inputs there: chains of the registered operators followed by operator-like tokens of every kind, well-formed and damaged programs over the extended table, soup over the extended table; each input goes through parse_expression, execute (empty context) and, for every Ok(ast), expr(), describe() and drop, under catch_unwind; (c) depth classes: for each recursive construct (paren, bracket, brace-map, call, prefix -, prefix not, conditional then-nest and else-nest, left infix chain, right assignment chain, identifier run, statements, a whitespace run at one token boundary, unclosed openers, prefix over parenthesised infix, postfix over parens, list-in-map-in-call mix, `not OP` chain) and each depth of a ladder (1..48 dense, 64, 100, 300, 1000, 3000, 10000; 10^5 and 10^6 for the iteratively handled constructs [thorough: 2000, 5000, 30000, 100000 for all]) one child process per (construct, depth, build profile dev/release) runs parse -> expr -> describe -> exec -> drop on the main thread (8 MiB stack) under a 30 s watchdog. Context functions that use the context they are evaluated in (every bare-name / call position of C14, two actions) run through C14's scenario runner. Any panic, any abort (signal) and any reproducible watchdog expiry is a failure; depth <= 1000 must never abort. Non-trivial: the input contains a non-ASCII scalar, or an unterminated/mismatched construct, or nesting/chain depth >= 8; distinct by input hash (soup) / (construct, depth, profile) (ladder).",
+    rule: "cases: (b) token soup: 0-60 fragments from 14 character/token classes (operator characters and spellings, delimiters, digit runs with . e E + -, balanced and unbalanced quotes, ; , whitespace, names, keywords, 2/3/4-byte scalars, other first characters, odd whitespace), glued without separator 3/4 of the time, plus corrupted valid programs, plus the operator x edge-palette programs of C04 (binary, compound, prefix/postfix and min/max/sum/mul forms), all in the dev AND the release build (paired shards); one case in 48 draws 2-6 user operators (infix, prefix, postfix; symbolic and word spellings, spellings starting with a 2-, 3- or 4-byte character, some registered in several positions, `+` and `in` overridden; precedences 0, 1, 2, 20, 21, 110, 200, 10^9, 2^30, i32::MAX, -1, -2^30, i32::MIN; both associativities), registers them in a fresh child process and runs eight inputs there: chains of the registered operators followed by operator-like tokens of every kind, well-formed and damaged programs over the extended table, soup over the extended table; each input goes through parse_expression, execute (empty context) and, for every Ok(ast), expr(), describe() and drop, under catch_unwind; (c) depth classes: for each recursive construct (paren, bracket, brace-map, call, prefix -, prefix not, conditional then-nest and else-nest, left infix chain, right assignment chain, identifier run, statements, a whitespace run at one token boundary, unclosed openers, prefix over parenthesised infix, postfix over parens, list-in-map-in-call mix, `not OP` chain) and each depth of a ladder (1..48 dense, 64, 100, 300, 1000, 3000, 10000; 10^5 and 10^6 for the iteratively handled constructs [thorough: 2000, 5000, 30000, 100000 for all]) one child process per (construct, depth, build profile dev/release) runs parse -> expr -> describe -> exec -> drop on the main thread (8 MiB stack) under a 30 s watchdog. Context functions that use the context they are evaluated in (every bare-name / call position of C14, two actions) run through C14's scenario runner. Any panic, any abort (signal) and any reproducible watchdog expiry is a failure; depth <= 1000 must never abort. Non-trivial: the input contains a non-ASCII scalar, or an unterminated/mismatched construct, or nesting/chain depth >= 8; distinct by input hash (soup) / (construct, depth, profile) (ladder).",
     assumptions: &[
         "termination is decided by a 30 s watchdog in a child process (normal run time is milliseconds); an expiry must reproduce twice to count, otherwise the run is inconclusive (exit 2)",
         "stack exhaustion is judged on the default 8 MiB main-thread stack in both build profiles",
@@ -117,10 +117,12 @@ fn check_text(text: &str, st: &mut Stats) -> CaseResult {
 }
 
 /// user operators of the registered-operator scenario: (kind, spelling)
-const REG_POOL: [(&str, &str); 14] = [
+const REG_POOL: [(&str, &str); 22] = [
     ("infix", "otherwise"), ("infix", "~>"), ("infix", "---"), ("infix", "%%"), ("infix", "+"), ("infix", "in"), ("infix", "vh_o"), ("infix", "@@"),
     ("prefix", "neg"), ("prefix", "+++"), ("prefix", "%%"),
     ("postfix", "!!"), ("postfix", "---"), ("postfix", "is_set"),
+    // spellings that start with a 2-, 3- or 4-byte character, in every position
+    ("infix", "×"), ("infix", "大于等于"), ("prefix", "√"), ("prefix", "¬"), ("postfix", "°"), ("postfix", "‰"), ("postfix", "𝄞"), ("infix", "é="),
 ];
 /// register_infix_op accepts every i32 (C08 documents the positive ones up to 10^9; an operator
 /// with a negative precedence never binds, but registering and meeting one must not panic either)
